@@ -391,6 +391,22 @@ Theorem C20_misroute_exact_boundary : forall cfg st h b n s,
 Proof. exact misroute_exact_boundary. Qed.
 Print Assumptions C20_misroute_exact_boundary.
 
+(* ... and over WHOLE HISTORIES (no hypothesis H at all): a protocol-respecting history from the initial state runs to the end
+   with every deallocation returned to its origin IF AND ONLY IF it contains no deallocation of a raw single-object block
+   meeting a pool that now has its value type's parameters.  This is the exact boundary of the known finding. *)
+Theorem C20_history_misroutes_iff : forall cfg ops, respects cfg (protocol cfg) init ops ->
+  ((exists st' obs, run cfg init ops = Ok (st', obs) /\ Forall (fun o => routed_ok o = true) obs) <-> respects cfg (no_danger cfg) init ops).
+Proof. exact history_misroutes_iff. Qed.
+Print Assumptions C20_history_misroutes_iff.
+
+(* the weak invariant (the invariant minus "no raw single-object block exists") survives every such history, which also never
+   asserts and keeps the base allocator balanced - so sharing a pool between node sizes is safe exactly up to the danger *)
+Theorem C20_weak_invariant_histories : forall cfg ops st, winv cfg st -> respects cfg (protocol cfg) st ops -> respects cfg (no_danger cfg) st ops ->
+  exists st' obs, run cfg st ops = Ok (st', obs) /\ winv cfg st' /\ Forall (fun o => routed_ok o = true) obs /\
+    (outstanding st' + sum_frees obs = outstanding st + sum_allocs obs)%nat.
+Proof. exact run_no_danger. Qed.
+Print Assumptions C20_weak_invariant_histories.
+
 (* ... a raw single-object block comes into existence exactly when a single-object request meets a BUSY pool of other
    parameters, i.e. exactly when H (no_size_sharing) is violated at that request (decision = the GENERATED allocate) ... *)
 Theorem C20_raw_single_created_iff : forall cfg vt P sz,
@@ -456,7 +472,7 @@ Print Assumptions C20_last_release_returns_all.
 Theorem C20_invariant_step : forall cfg st o, inv cfg st -> proto_ok cfg st o = true -> h_ok cfg st o = true ->
   exists st' ob, step cfg st o = Ok (st', ob) /\ inv cfg st' /\ routed_ok ob = true /\
     (outstanding st' + o_frees ob = outstanding st + o_allocs ob)%nat.
-Proof. exact step_good_all. Qed.
+Proof. exact step_good_H. Qed.
 Print Assumptions C20_invariant_step.
 
 (* About the generated CorrectBlockSize/Ceil, for every blockCount <> 1: the pool block for a value type (0 < size < 2^32,
